@@ -1,0 +1,46 @@
+//go:build verif && linux
+
+package conn
+
+import (
+	"net"
+
+	"golang.org/x/net/ipv6"
+)
+
+// Exports for the verification harness (build tag verif only).  Add-only.
+
+type VerifConst struct {
+	Name string
+	Val  uint64
+}
+
+func VerifConstants() []VerifConst {
+	return []VerifConst{
+		{"IdealBatchSize", IdealBatchSize},
+		{"maxIPv4PayloadLen", maxIPv4PayloadLen},
+		{"maxIPv6PayloadLen", maxIPv6PayloadLen},
+		{"udpSegmentMaxDatagrams", udpSegmentMaxDatagrams},
+		{"gsoControlSize", uint64(gsoControlSize)},
+	}
+}
+
+// VerifCoalesceMessages exposes coalesceMessages with the Linux GSO setter.
+func VerifCoalesceMessages(addr *net.UDPAddr, ep *StdNetEndpoint, bufs [][]byte, msgs []ipv6.Message) int {
+	return coalesceMessages(addr, ep, bufs, msgs, setGSOSize)
+}
+
+// VerifSplitCoalescedMessages exposes splitCoalescedMessages with the Linux GSO getter.
+func VerifSplitCoalescedMessages(msgs []ipv6.Message, firstMsgAt int) (int, error) {
+	return splitCoalescedMessages(msgs, firstMsgAt, getGSOSize)
+}
+
+// VerifGetGSOSize exposes getGSOSize.
+func VerifGetGSOSize(control []byte) (int, error) {
+	return getGSOSize(control)
+}
+
+// VerifSetGSOSize exposes setGSOSize.
+func VerifSetGSOSize(control *[]byte, gsoSize uint16) {
+	setGSOSize(control, gsoSize)
+}
